@@ -98,12 +98,19 @@ def main():
     print(json.dumps(res, indent=1))
     if a.keep:
         dst = os.path.join("/verif/seeded", a.keep); os.makedirs(dst, exist_ok=True)
+        prev = {}
+        if os.path.exists(os.path.join(dst, "meta.json")):
+            prev = json.load(open(os.path.join(dst, "meta.json")))
         for f in os.listdir(seed):
             shutil.copy(os.path.join(seed, f), os.path.join(dst, f if not f.endswith("_test.go") else f + ".txt"))
         mp = os.path.join(dst, "meta.json")
         meta = json.load(open(mp)) if os.path.exists(mp) else {}
+        for k in ("check_results", "first_run", "confirmed_by_coordinator"):
+            if k in prev and k not in meta:
+                meta[k] = prev[k]
         meta.setdefault("property", a.prop)
-        meta["confirmed_by_coordinator"] = {k: res.get(k) for k in ("applies", "builds", "suite_passes_with_change", "demo_fails_with_change", "demo_passes_without_change", "demo_pkg")}
+        if not a.skip_confirm:
+            meta["confirmed_by_coordinator"] = {k: res.get(k) for k in ("applies", "builds", "suite_passes_with_change", "demo_fails_with_change", "demo_passes_without_change", "demo_pkg")}
         meta.setdefault("check_results", []).append({"property": a.prop, "tier": a.tier, "detected": res["detected"], "layer": res.get("replay_layer"), "no_failing_input_found": res.get("no_failing_input_found"), "diff": res.get("replay_diff"), "tail": res.get("check_tail"), "applied_to": res.get("applied_to"), "ran": "git apply patch.diff; python3 check.py %s --tier %s; undo" % (a.prop, a.tier)})
         json.dump(meta, open(mp, "w"), indent=1)
 
